@@ -2,6 +2,7 @@
 """Print the prompt for a seeding sub-agent: property text + worktree path."""
 import json, sys
 pid, wt = sys.argv[1], sys.argv[2]
+extra = (' ' + sys.argv[3]) if len(sys.argv) > 3 else ''
 p = [json.loads(l) for l in open('/verif/properties.jsonl') if json.loads(l)['id'] == pid][0]
 print(f"""You are helping test a verification tool by seeding a realistic defect into a copy of the open-source project cylc-flow (a Python workflow scheduler).
 
@@ -22,4 +23,4 @@ Deliver, inside {wt}:
   2. a demonstration file {wt}/demo_{p['id']}.py: a small standalone Python program (or pytest file) that exits non-zero / fails WITH your change and exits 0 / passes WITHOUT it (i.e. on the unmodified code); it should exercise the real cylc-flow code (unit-level use of the real classes is fine; no network);
   3. verify both directions yourself (NEVER use `git stash`: the stash is shared with other worktrees and other workers use it concurrently; instead save your change with `git diff > /tmp/{p['id']}_change.patch`, un-apply it with `git apply -R /tmp/{p['id']}_change.patch` and re-apply it with `git apply /tmp/{p['id']}_change.patch`), and run the relevant existing tests with your change to confirm they still pass.
 
-In your final message report: the diff, what it needs in order to manifest, the exact commands you ran (tests + demo with and without the change) and their outcomes. Keep the change minimal (a few lines).""")
+In your final message report: the diff, what it needs in order to manifest, the exact commands you ran (tests + demo with and without the change) and their outcomes. Keep the change minimal (a few lines). BUSY MACHINE: other jobs are running - never use more than `-n 3` with pytest, and prefer running only the test files related to what you touch plus tests/unit.{extra}""")
